@@ -139,6 +139,8 @@ func (n *LNode) Step(e Event, raw *interfaces.ConsensusRawMessage, info ref.Info
 	}
 	preOuts, preCommits, preAll, preVals, preReqs := len(n.Comm.Outs), len(n.Blocks), len(n.Store.All), len(n.BU.Vals), len(n.BU.Reqs)
 	preView := uint64(n.V.S.View())
+	preHeight := uint64(n.V.S.Height())
+	prePrep, preComm, preLatest := n.flags()
 	trigger := "-"
 	switch e.Kind {
 	case 'd':
@@ -178,6 +180,20 @@ func (n *LNode) Step(e Event, raw *interfaces.ConsensusRawMessage, info ref.Info
 	}()
 	hv := n.V.S.HeightView()
 	height, view := uint64(hv.Height()), uint64(hv.View())
+	if e.Kind == 'd' && n.Dead == "" {
+		stored := false
+		for _, d := range n.Store.All[preAll:] {
+			if len(d) > 2 && d[:2] == "1/" {
+				stored = true
+			}
+		}
+		fp, fc, fl := n.flags()
+		if stored || len(n.Comm.Outs) > preOuts || len(n.Blocks) > preCommits || height != preHeight || view != preView || fp != prePrep || fc != preComm || fl != preLatest {
+			if ok, why := n.mayInfluence(info, preHeight, preView); !ok {
+				obs.Viol = append(obs.Viol, Violation{"C08", "influence-" + why, fmt.Sprintf("n%d at (h%d,v%d) was influenced (stored=%v sent=%d view->%d) by %s, which must be ignored: %s", n.Idx, preHeight, preView, stored, len(n.Comm.Outs)-preOuts, view, info.Desc(), why)})
+			}
+		}
+	}
 	sh := n.Sh
 	r := n.W.R
 	me := string(n.ID)
@@ -469,4 +485,75 @@ func proofSigners(p []byte) []string {
 		r = append(r, string(it.NextNodes().MemberId()))
 	}
 	return r
+}
+
+func (n *LNode) flags() (int64, bool, uint64) {
+	if t := n.V.Term(); t != nil && t.VerifTermInCommittee() != nil {
+		return t.VerifTermInCommittee().VerifFlags()
+	}
+	return -2, false, 0
+}
+
+// mayInfluence = the NECESSARY conditions of C08 for a delivered message to influence a node that is at
+// (height, view): authentic, in-committee, this instance and height, role-correct, not stale.
+func (n *LNode) mayInfluence(i ref.Info, height, view uint64) (bool, string) {
+	r := n.W.R
+	me := string(n.ID)
+	if i.Bad {
+		return false, "unparsable"
+	}
+	if !i.Sender.SigOK {
+		return false, "signature-does-not-verify"
+	}
+	if !r.Member(i.Sender.ID) {
+		return false, "sender-not-in-committee"
+	}
+	if i.Sender.ID == me {
+		return false, "own-sender-id"
+	}
+	if i.Hdr.Inst != r.Inst {
+		return false, "other-instance"
+	}
+	if i.Hdr.Height != height {
+		return false, "other-height"
+	}
+	want := map[string]int{ref.KPP: int(protocol.LEAN_HELIX_PREPREPARE), ref.KP: int(protocol.LEAN_HELIX_PREPARE), ref.KC: int(protocol.LEAN_HELIX_COMMIT), ref.KVC: int(protocol.LEAN_HELIX_VIEW_CHANGE), ref.KNV: int(protocol.LEAN_HELIX_NEW_VIEW)}
+	if i.Hdr.Type != want[i.Kind] {
+		return false, "header-type-mismatch"
+	}
+	switch i.Kind {
+	case ref.KPP:
+		if i.Sender.ID != r.Leader(i.Hdr.View) {
+			return false, "preprepare-not-from-leader"
+		}
+	case ref.KP:
+		if i.Sender.ID == r.Leader(i.Hdr.View) {
+			return false, "prepare-from-leader"
+		}
+		if i.Hdr.View < view {
+			return false, "stale-view-prepare"
+		}
+	case ref.KC:
+		if !bytes.Equal(i.Share, kit.Share([]byte(i.Sender.ID), primitives.BlockHeight(i.Hdr.Height), randomseed.RandomSeedToBytes(n.seed))) {
+			return false, "commit-without-valid-share"
+		}
+	case ref.KVC:
+		if r.Leader(i.Hdr.View) != me {
+			return false, "vote-not-addressed-to-this-leader"
+		}
+		if i.Hdr.View < view {
+			return false, "stale-view-vote"
+		}
+		if i.Proof.Present && !r.ValidPreparedProof(i.Proof, height, i.Hdr.View) {
+			return false, "vote-with-invalid-proof"
+		}
+	case ref.KNV:
+		if i.Hdr.View < view {
+			return false, "stale-view-newview"
+		}
+		if i.Sender.ID != r.Leader(i.Hdr.View) {
+			return false, "newview-not-from-leader"
+		}
+	}
+	return true, ""
 }
